@@ -66,6 +66,9 @@ type Parser struct {
 	// illegal is the first illegal token the lexer has produced
 	illegal *token.Token
 
+	// ahead holds the tokens that were read beyond peekToken
+	ahead []token.Token
+
 	prefixParseFns map[token.TokenType]prefixParseFn
 	infixParseFns  map[token.TokenType]infixParseFn
 
@@ -289,12 +292,39 @@ func (p *Parser) nextToken() {
 		return
 	}
 
-	p.peekToken = p.l.NextToken()
-
-	if p.illegal == nil && p.peekToken.Type == token.ILLEGAL {
-		tok := p.peekToken
-		p.illegal = &tok
+	if len(p.ahead) > 0 {
+		p.peekToken = p.ahead[0]
+		p.ahead = p.ahead[1:]
+		return
 	}
+
+	p.peekToken = p.readToken()
+}
+
+// readToken takes the next token from the lexer
+func (p *Parser) readToken() token.Token {
+	tok := p.l.NextToken()
+
+	if p.illegal == nil && tok.Type == token.ILLEGAL {
+		illegal := tok
+		p.illegal = &illegal
+	}
+
+	return tok
+}
+
+// tokenAhead returns the token n positions after peekToken
+// without consuming anything
+func (p *Parser) tokenAhead(n int) token.Token {
+	if n == 0 {
+		return p.peekToken
+	}
+
+	for len(p.ahead) < n {
+		p.ahead = append(p.ahead, p.readToken())
+	}
+
+	return p.ahead[n-1]
 }
 
 // backUp undoes the last call of nextToken
@@ -529,21 +559,30 @@ func (p *Parser) parseComponentStmt() ast.Statement {
 		return nil
 	}
 
-	if p.peekTokenIs(token.SLOT) {
-		p.nextToken() // skip ")"
-		stmt.Slots = p.parseSlots()
-	} else if p.peekTokenIs(token.HTML) && isWhitespace(p.peekToken.Literal) {
-		p.nextToken() // skip ")"
+	// Slots can be separated from ")" by whitespace, which a comment
+	// splits into several tokens. Without slots the whitespace
+	// is left where it is, it belongs to the output
+	n := 0
 
-		if p.peekTokenIs(token.SLOT) {
-			p.nextToken() // skip whitespace
-			stmt.Slots = p.parseSlots()
+	for p.isWhitespaceHTML(p.tokenAhead(n)) {
+		n++
+	}
+
+	if p.tokenAhead(n).Type == token.SLOT {
+		for ; n >= 0; n-- {
+			p.nextToken() // skip ")" and whitespace
 		}
+
+		stmt.Slots = p.parseSlots()
 	}
 
 	p.components = append(p.components, stmt)
 
 	return stmt
+}
+
+func (p *Parser) isWhitespaceHTML(tok token.Token) bool {
+	return tok.Type == token.HTML && isWhitespace(tok.Literal)
 }
 
 func (p *Parser) parseAliasPathShortcut(shortenTo string) string {
